@@ -196,7 +196,7 @@ pub fn cases(tier: Tier, seed: u64) -> Vec<Case> {
             out.push(forward_case("conv-dense-dense", Shape::Triple(1, 2, 2), mixed.clone(), vec![(0, 2)], acc));
         }
     }
-    for conns in [vec![(0, 2)], vec![(0, 1)], vec![(0, 1), (1, 2)], vec![(0, 1), (0, 2)], vec![(0, 2), (1, 3)], vec![(1, 1)], vec![(1, 1), (1, 3)], vec![(1, 3), (1, 1)], vec![(2, 2), (2, 3), (0, 1)]] {
+    for conns in [vec![(0, 2)], vec![(0, 1)], vec![(0, 1), (1, 2)], vec![(0, 1), (0, 2)], vec![(0, 2), (1, 3)], vec![(1, 1)], vec![(1, 1), (1, 3)], vec![(1, 3), (1, 1)], vec![(2, 2), (2, 3), (0, 1)], vec![(1, 2), (2, 3)], vec![(1, 2), (2, 2)], vec![(0, 1), (1, 2), (2, 3)]] {
         out.push(gradient_case("dense-chain", Shape::Single(2), chain.clone(), conns));
     }
     out.push(gradient_case("conv-dense-dense", Shape::Triple(1, 2, 2), mixed.clone(), vec![(0, 1)]));
